@@ -130,8 +130,7 @@ R_INTERIOR_HSYNC = make_seq_rule("R-interior", "fn sync(&self", "fn sync(&mut se
 R_ARC_NEW = make_seq_rule("R-arc", "Arc::new(", "verif_arc_new(")
 R_ARC_CLONE_CTX = make_seq_rule("R-arc", "ctx.clone()", "verif_arc_clone(&ctx)")
 R_ARC_CLONE_HANDLE = make_seq_rule("R-arc", "self.handle.clone()", "verif_arc_clone(&self.handle)")
-R_POOL_NEW1 = make_seq_rule("R-ghost-arg", "ArrayQueue::new(ctx.conf.concurrency)", "ArrayQueue::verif_new(ctx.conf.concurrency, Tracked(w))")
-R_POOL_NEW2 = make_seq_rule("R-ghost-arg", "ArrayQueue::new(ctx.conf.concurrency + 1)", "ArrayQueue::verif_new(ctx.conf.concurrency + 1, Tracked(w))")
+R_POOL_NEW1 = make_seq_rule("R-ghost-arg", "ArrayQueue::new(", "ArrayQueue::verif_new(Tracked(w), ")
 R_THREAD = make_seq_rule("R-thread", 'std::thread::Builder::new().name("bitcask-background-tasks".into()).spawn(move || background_tasks(handle, notify_shutdown))?;',
                          "verif_thread::spawn_background(handle, notify_shutdown)?;")
 # R-ref-pattern: `&PAT = place_ref` is `PAT = *place_ref` (the fields bound are Copy)
@@ -144,7 +143,7 @@ R_DUR_SUB = make_seq_rule("R-duration-op", "interval - jitter", "interval.verif_
 R_DUR_ADD = make_seq_rule("R-duration-op", "interval + jitter", "interval.verif_add(jitter)")
 R_ARC_CLONE_H = make_seq_rule("R-arc", "handle.clone()", "verif_arc_clone(&handle)", not_after=(".",))
 BG_RULES = (R_DUR_SUB, R_DUR_ADD, R_ARC_CLONE_H, make_mut_param_rule("shutdown"))
-OPEN_RULES = (R_REF_PAT, R_F64_CMP, R_ARC_NEW, R_ARC_CLONE_CTX, R_ARC_CLONE_HANDLE, R_POOL_NEW1, R_POOL_NEW2, R_THREAD)
+OPEN_RULES = (R_REF_PAT, R_F64_CMP, R_ARC_NEW, R_ARC_CLONE_CTX, R_ARC_CLONE_HANDLE, R_POOL_NEW1, R_THREAD)
 R_INTERIOR_KVSET = make_seq_rule("R-interior", "fn set(&self", "fn set(&mut self")
 R_INTERIOR_KVDEL = make_seq_rule("R-interior", "fn del(&self", "fn del(&mut self")
 # the supertraits / bounds of the trait are about threads and error reporting, not about what the methods compute
